@@ -1,5 +1,7 @@
 import IgrisModel.Common.Proto
 import IgrisModel.C02.Model
+import IgrisModel.C02.FlatVec
+import IgrisModel.C02.Exc
 open Igris.Proto Igris.C02
 
 inductive Mode where
@@ -7,6 +9,7 @@ inductive Mode where
   | vec (portable tracked : Bool) (s : St)
   | faulted
   | flat (ltM ltS : Int → Int → Bool) (m : FMap) (s : FSet)   -- comparator of the map, of the set
+      (vm : Option (VMap × Ledger)) (vs : Option (VSet × Ledger)) -- the same containers OVER THE SLOT-MODEL VECTOR (none = faulted)
 
 def showVec (v : Vec) : String :=
   let body :=
@@ -96,6 +99,7 @@ def showMRet : MRet → String
   | .opt none => "end"
   | .nat n => toString n
   | .throw => "throw"
+  | .entries l => if l.isEmpty then "-" else ",".intercalate (l.map fun (k, v) => s!"{k}>{v}")
 
 def showSRet : SRet → String
   | .unit => "-"
@@ -112,6 +116,8 @@ def parseMOp : List String → Option MOp
   | ["mcount", k] => do pure (.count (← int? k))
   | ["mat", k] => do pure (.at (← int? k))
   | ["msize"] => some .size
+  | ["miter"] => some .iter
+  | ["mcget", k] => do pure (.cindex (← int? k))
   | ["mclear"] => some .clear
   | "minit" :: xs => do let l ← ints? xs; pure (.init ((pairs l).take 4))
   | _ => none
@@ -138,22 +144,80 @@ def cmpOf : String → Option ((Int → Int → Bool) × (Int → Int → Bool))
   | "dirdesc" => some (ltInt, fun a b => decide (b < a))
   | _ => none
 
-def flatStep (ltM ltS : Int → Int → Bool) (m : FMap) (s : FSet) (ws : List String) : Option (FMap × FSet × String) :=
+/-- the pair code the driver uses for the map over the slot vector (injective on the harness' ranges:
+    mapped values 0..99; the theorems hold for every coding with `dec ∘ enc = id`) -/
+def drvCoding : Coding := ⟨fun p => p.1 * 1000 + p.2, fun x => (x / 1000, x % 1000)⟩
+
+/-- run the operation on flat_map / flat_set over the slot-model vector as well; the answer must be the one of
+    the list model and the contents of the vector must be the list (what `vmap_step_simulates` /
+    `vset_step_simulates` prove); anything else is reported in the result line -/
+def composedCheck (ltM ltS : Int → Int → Bool) (m' : FMap) (s' : FSet) (ws : List String)
+    (vm : Option (VMap × Ledger)) (vs : Option (VSet × Ledger)) (rm : Option MRet) (rs : Option SRet) :
+    Option (VMap × Ledger) × Option (VSet × Ledger) × String :=
+  match parseMOp ws, parseSOp ws with
+  | some op, _ =>
+    match vm with
+    | none => (none, vs, " composed-map-faulted")
+    | some (v, l) =>
+      match VMap.step drvCoding ltM v l op with
+      | none => (none, vs, " composed-map-fault")
+      | some (v', l', r) =>
+        let okc := (contents v'.v) == some (m'.st.map drvCoding.enc)
+        (some (v', l'), vs, if some r == rm && okc && l'.made - l'.dtor == m'.st.length then "" else " composed-map-mismatch")
+  | none, some op =>
+    match vs with
+    | none => (vm, none, " composed-set-faulted")
+    | some (v, l) =>
+      match VSet.step ltS v l op with
+      | none => (vm, none, " composed-set-fault")
+      | some (v', l', r) =>
+        let okc := (contents v'.v) == some s'.st
+        (vm, some (v', l'), if some r == rs && okc && l'.made - l'.dtor == s'.st.length then "" else " composed-set-mismatch")
+  | none, none => (vm, vs, "")
+
+def flatStep (ltM ltS : Int → Int → Bool) (m : FMap) (s : FSet) (ws : List String) :
+    Option (FMap × FSet × String × Option MRet × Option SRet) :=
   match parseMOp ws with
-  | some op => let (m', r) := m.step ltM op; some (m', s, showMRet r)
+  | some op => let (m', r) := m.step ltM op; some (m', s, showMRet r, some r, none)
   | none =>
     match parseSOp ws with
-    | some op => let (s', r) := s.step ltS op; some (m, s', showSRet r)
+    | some op => let (s', r) := s.step ltS op; some (m, s', showSRet r, none, some r)
     | none =>
       -- copy construction / copy assignment / move of the whole map (defaulted members): the map is unchanged
-      if ws = ["mcopy"] then some (m, s, "10") else none
+      if ws = ["mcopy"] then some (m, s, "10", none, none)
+      -- operator== / != against a map rebuilt through operator[] in reverse order
+      -- the remaining interface of flat_map / flat_set / flat_map_view / ctrdtr.h (correspondence only):
+      -- forward | reverse iteration | consistency flag
+      else if ws = ["mmisc"] then
+        let sh := fun (l : List (Int × Int)) => if l.isEmpty then "-" else ",".intercalate (l.map fun (k, v) => s!"{k}>{v}")
+        some (m, s, sh m.st ++ "|" ++ sh m.st.reverse ++ "|1", none, none)
+      else if ws = ["smisc"] then some (m, s, s!"{s.st.length},{s.st.length}", none, none)
+      else if ws.head? = some "ctrdtr" then
+        match ws with
+        | [_, x] => some (m, s, s!"{x},{x},{x},1", none, none)
+        | _ => none
+      else if ws.head? = some "mview" then
+        match ws with
+        | [_, x] =>
+          -- flat_map_view over {1>0, 4>10, 7>20, 10>30}: linear find with KeyEqual
+          let arr : List (Int × Int) := [(1, 0), (4, 10), (7, 20), (10, 30)]
+          match x.toInt? with
+          | none => none
+          | some k =>
+            let i := arr.findIdx (fun p => p.1 == k)
+            some (m, s, (match arr[i]? with | some p => s!"{i}>{p.2}" | none => "end") ++ ",4,4", none, none)
+        | _ => none
+      else if ws = ["meq"] then
+        let c := m.rebuiltRev ltM
+        some (m, s, (if c.eqStorage m then "1" else "0") ++ (if c.eqStorage m then "0" else "1"), none, none)
+      else none
 
 def stepLine (st : Mode) (line : String) : Mode × String :=
   match words line with
-  | ["reset", "flat", _] => (.flat ltInt ltInt {} {}, "ok")
+  | ["reset", "flat", _] => (.flat ltInt ltInt {} {} (some ({}, {})) (some ({}, {})), "ok")
   | ["reset", "flat", _, c] =>
     match cmpOf c with
-    | some (ltM, ltS) => (.flat ltM ltS {} {}, "ok")
+    | some (ltM, ltS) => (.flat ltM ltS {} {} (some ({}, {})) (some ({}, {})), "ok")
     | none => (.idle, "bad-op")
   | ["reset", ty, var] =>
     if (ty = "int" ∨ ty = "trk") ∧ (var = "v" ∨ var = "p") then
@@ -163,9 +227,11 @@ def stepLine (st : Mode) (line : String) : Mode × String :=
     match st with
     | .idle => (st, "bad-op")
     | .faulted => (st, "fault")
-    | .flat ltM ltS m s =>
+    | .flat ltM ltS m s vm vs =>
       match flatStep ltM ltS m s ws with
-      | some (m, s, r) => (.flat ltM ltS m s, r ++ flatDump m s)
+      | some (m, s, r, rm, rs) =>
+        let (vm, vs, note) := composedCheck ltM ltS m s ws vm vs rm rs
+        (.flat ltM ltS m s vm vs, r ++ flatDump m s ++ note)
       | none => (st, "bad-op")
     | .vec p t s =>
       if ws = ["end"] then
@@ -176,12 +242,19 @@ def stepLine (st : Mode) (line : String) : Mode × String :=
           let tot := if t then s!"{l.made},{l.dtor},{l.alloc},{l.dealloc}" else s!"-,-,{l.alloc},{l.dealloc}"
           (.vec p t St.init, s!"end tot={tot} ev={showEv t s.led l}")
       else
+        -- `x <k> <op …>`: the operation runs with the exception fuse k (Exc.lean)
+        let (fz, ws) : Option Nat × List String :=
+          match ws with
+          | "x" :: k :: rest => (k.toNat?, rest)
+          | _ => (none, ws)
         match parseOp ws with
         | none => (st, "bad-op")
         | some (op, temps) =>
-          match step p s op with
-          | none => (.faulted, "fault")
-          | some (s', r) =>
+          match stepX p s fz op with
+          | .fault => (.faulted, "fault")
+          | .threw (s', _) =>
+            (.vec p t s', s!"threw {showVec (s'.regs 0)} {showVec (s'.regs 1)} {showVec (s'.regs 2)} ev={showEv t s.led s'.led}")
+          | .ok (s', r) =>
             -- the backing array of an initializer list: `temps` constructions and destructions by the caller
             let s' : St := ⟨s'.regs, (s'.led.addCtor temps).addDtor temps⟩
             (.vec p t s', s!"{showRet r} {showVec (s'.regs 0)} {showVec (s'.regs 1)} {showVec (s'.regs 2)} ev={showEv t s.led s'.led}")
